@@ -64,7 +64,8 @@ def gen_config(rng, emph=None):
   c['exponent_override'] = wpick(
       rng, [(0, 6), (1, 1), (2, 1), (3, 1), (5, 1), (8, 1)])
   c['inverse_failure_threshold'] = wpick(rng, emph.get(
-      'thr', [(0.1, 10), (0.0, 1), (1e-30, 1), (1e30, 1)]))
+      'thr', [(0.1, 8), (0.01, 1), (0.7, 1), (0.003, 1), (0.2, 1), (0.0, 1),
+              (1e-30, 1), (1e30, 1)]))
   c['relative_matrix_epsilon'] = rng.random() < 0.7
   c['eigh'] = rng.random() < emph.get('eigh', 0.4)
   if rng.random() < 0.5:
